@@ -204,6 +204,47 @@ theorem faulted_first_store_then_get {V : Type} (encode : V → Bytes) (decode :
   · left; rw [h, hold]
   · right; simp [readBack, h, hrt]
 
+/-- **no permission to create the temp file** (directory not writable for the process): `CreateTemp` fails, the
+    store returns an error and NOTHING in the file system has changed — in particular the store never falls back to
+    writing the target in place -/
+theorem atomic_store_create_denied (p t : Path) (new : Bytes) (fs : FS) (k : Nat) (mask : List Bool) :
+    exec (storeAtomic p t new) (.fail 0 k mask) fs = fs ∧ status (storeAtomic p t new) (.fail 0 k mask) = .err := by
+  constructor
+  · cases mask <;> rfl
+  · rfl
+
+/-- **sequences.** Any sequence of stores into one directory — each with its own fault, killed stores leaving their
+    temp files behind, nothing cleaned in between — leaves at the target the content it had before the sequence or
+    the COMPLETE content of one of the stores of the sequence; never a mixture, whatever temp files lie around.
+    (`createTemp` models `os.CreateTemp`'s O_EXCL: the name it opens is new, hence empty; the theorem needs nothing
+    else about the temp names, they may even repeat.) -/
+theorem seq_intact (p : Path) (steps : List Step) (fs : FS) (ht : ∀ s ∈ steps, s.tmp ≠ p) :
+    runSeq p steps fs p = fs p ∨ ∃ s ∈ steps, runSeq p steps fs p = some s.new := by
+  induction steps generalizing fs with
+  | nil => exact Or.inl rfl
+  | cons s ss ih =>
+    have hs := (atomic_store_intact p s.tmp (ht s (List.mem_cons_self ..)) s.new fs s.fault).1
+    have := ih (exec (storeAtomic p s.tmp s.new) s.fault fs) (fun s' hs' => ht s' (List.mem_cons_of_mem _ hs'))
+    simp only [runSeq]
+    rcases this with h | ⟨s', hs', h⟩
+    · rcases hs with h' | h'
+      · exact Or.inl (h.trans h')
+      · exact Or.inr ⟨s, List.mem_cons_self .., h.trans h'⟩
+    · exact Or.inr ⟨s', List.mem_cons_of_mem _ hs', h⟩
+
+/-- … and a sequence whose LAST store reported success leaves that store's content -/
+theorem seq_last_ok (p : Path) (steps : List Step) (s : Step) (fs : FS) (ht : s.tmp ≠ p)
+    (hok : status (storeAtomic p s.tmp s.new) s.fault = .ok) :
+    runSeq p (steps ++ [s]) fs p = some s.new := by
+  induction steps generalizing fs with
+  | nil => exact (atomic_store_intact p s.tmp ht s.new fs s.fault).2 hok
+  | cons s' ss ih => simpa [runSeq] using ih _
+
+/-- step by step: every state of the trace satisfies P18 relative to the state before it -/
+theorem seq_trace_step (p : Path) (s : Step) (fs : FS) (ht : s.tmp ≠ p) :
+    P18 (fs p) s.new (status (storeAtomic p s.tmp s.new) s.fault) (exec (storeAtomic p s.tmp s.new) s.fault fs p) :=
+  atomic_store_intact p s.tmp ht s.new fs s.fault
+
 /-! ### the stores as found (kept as the reason for the repair; witness lines are in corpus/C18.lines) -/
 
 /-- truncate-then-write: a process that dies during the write after `k` bytes leaves exactly the first `k` bytes -/
@@ -229,6 +270,32 @@ theorem inplace_violates (p : Path) (old new : Bytes) (ho : old ≠ []) (hn : ne
   rintro (h | h)
   · exact ho h.symm
   · exact hn h.symm
+
+/-! ### two variants that must not be written, and why -/
+
+/-- a FIXED temp name reused without truncation: a store of a long value killed after `n` bytes, then — after the
+    restart — a successful store of a SHORTER value: the target is the new value followed by the stale tail -/
+theorem fixedTemp_mixes (p t : Path) (htp : t ≠ p) (long short : Bytes) (n : Nat) (fs : FS) (hfresh : fs t = none) :
+    exec (storeFixedTemp p t short) .none (exec (storeFixedTemp p t long) (.die 1 n) fs) p =
+      some (short ++ (long.take n).drop short.length) := by
+  simp [exec, storeFixedTemp, runOps, Op.run, Op.interrupted, FS.set, hfresh, Ne.symm htp]
+
+/-- … which is not the value whose store just reported success, as soon as the killed write got further than the
+    short value is long -/
+theorem fixedTemp_violates (p t : Path) (htp : t ≠ p) (long short : Bytes) (n : Nat) (fs : FS) (hfresh : fs t = none)
+    (h1 : short.length < n) (h2 : n ≤ long.length) :
+    exec (storeFixedTemp p t short) .none (exec (storeFixedTemp p t long) (.die 1 n) fs) p ≠ some short := by
+  rw [fixedTemp_mixes p t htp long short n fs hfresh]
+  intro h
+  have := congrArg (Option.map List.length) h
+  simp [List.length_take] at this
+  omega
+
+/-- falling back to an in-place write when the temp file cannot be created: the fall-back is the as-found store, so
+    a death after `k` bytes of it leaves a `k`-byte prefix although the atomic path itself changed nothing -/
+theorem fallback_truncates (p t : Path) (new : Bytes) (fs : FS) (k : Nat) :
+    exec (storeInPlace p new) (.die 1 k) (exec (storeAtomic p t new) (.fail 0 0 []) fs) p = some (new.take k) := by
+  rw [(atomic_store_create_denied p t new fs 0 []).1]; exact inplace_die_truncates p new fs k
 
 /-! ### non-vacuity -/
 
@@ -257,6 +324,19 @@ example :
     let fs : FS := FS.set (fun _ => none) "share" (some [1, 2, 3])
     exec (storeInPlace "share" [4, 5, 6, 7]) (.die 1 0) fs "share" = some [] ∧
       ¬ Intact (fs "share") [4, 5, 6, 7] (exec (storeInPlace "share" [4, 5, 6, 7]) (.die 1 0) fs "share") := by decide
+
+/-- a sequence: store, killed store of a longer value, successful store of a shorter one — with the SAME temp name
+    every time (the model's `createTemp` is O_EXCL): the shorter value, whole -/
+example :
+    let fs : FS := fun _ => none
+    let r := runSeq "share" [⟨[1, 2, 3], "t", .none⟩, ⟨[4, 5, 6, 7, 8, 9], "t", .die 1 5⟩, ⟨[7, 7], "t", .none⟩] fs
+    r "share" = some [7, 7] ∧ r "t" = none := by decide
+
+/-- the same sequence through the fixed-name / no-truncate variant: `[7,7]` followed by the stale `[6,7,8]` -/
+example :
+    let fs : FS := FS.set (fun _ => none) "share" (some [1, 2, 3])
+    exec (storeFixedTemp "share" "t" [7, 7]) .none (exec (storeFixedTemp "share" "t" [4, 5, 6, 7, 8, 9]) (.die 1 5) fs)
+      "share" = some [7, 7, 6, 7, 8] := by decide
 
 /-- the round-trip hypothesis of the value-level theorems is satisfiable (identity coding) -/
 example : ∀ v : Bytes, (some : Bytes → Option Bytes) (id v) = some v := fun _ => rfl
